@@ -76,21 +76,94 @@ def gen_registry(out):
     out.append("")
 
 
-GENERATORS = [gen_registry]
+def gen_dammit(out):
+    import inspect, re as _re
+    from bs4.dammit import UnicodeDammit, EncodingDetector
+    out.append(comment("C19 / C07: UnicodeDammit tables"))
+    items = []
+    for k, v in sorted(UnicodeDammit.MS_CHARS.items()):
+        assert isinstance(k, bytes) and len(k) == 1
+        if type(v) is tuple:
+            assert len(v) == 2 and all(isinstance(x, str) for x in v)
+            items.append("(%d, MsPair %s %s)" % (k[0], coqstr(v[0]), coqstr(v[1])))
+        else:
+            assert isinstance(v, str)
+            items.append("(%d, MsPlain %s)" % (k[0], coqstr(v)))
+    out.append("Definition ms_chars : list (N * ms_entry) := " + chunked_list(items, 2) + ".")
+    items = []
+    for k, v in sorted(UnicodeDammit.MS_CHARS_TO_ASCII.items()):
+        assert isinstance(k, bytes) and len(k) == 1 and isinstance(v, str)
+        items.append("(%d, %s)" % (k[0], lstN(list(v.encode()))))   # the code calls .encode()
+    out.append("Definition ms_chars_to_ascii : list (N * list N) := " + chunked_list(items, 4) + ".")
+    items = []
+    for k, v in sorted(UnicodeDammit.WINDOWS_1252_TO_UTF8.items()):
+        assert isinstance(k, int) and isinstance(v, bytes)
+        items.append("(%d, %s)" % (k, lstN(list(v))))
+    out.append("Definition windows_1252_to_utf8 : list (N * list N) := " + chunked_list(items, 4) + ".")
+    mm = UnicodeDammit.MULTIBYTE_MARKERS_AND_SIZES
+    out.append("Definition multibyte_markers : list (N * N * nat) := [" + "; ".join(
+        "(%d, %d, %d%%nat)" % (a, b, c) for a, b, c in mm) + "].")
+    out.append("Definition first_multibyte_marker : N := %d." % UnicodeDammit.FIRST_MULTIBYTE_MARKER)
+    out.append("Definition last_multibyte_marker : N := %d." % UnicodeDammit.LAST_MULTIBYTE_MARKER)
+    out.append("Definition encodings_with_smart_quotes : list (list N) := [" + "; ".join(
+        coqstr(e) for e in UnicodeDammit.ENCODINGS_WITH_SMART_QUOTES) + "].")
+    # the smart-quote byte range is a local regex inside _convert_from: read it from the source
+    src = inspect.getsource(UnicodeDammit._convert_from)
+    m = _re.search(r'smart_quotes_re\s*=\s*b"\(\[\\x([0-9a-fA-F]{2})-\\x([0-9a-fA-F]{2})\]\)"', src)
+    if not m:
+        raise RuntimeError("cannot find the smart-quote byte range in UnicodeDammit._convert_from")
+    out.append("Definition smart_quotes_lo : N := %d." % int(m.group(1), 16))
+    out.append("Definition smart_quotes_hi : N := %d." % int(m.group(2), 16))
+    out.append("")
+
+
+def gen_entities(out):
+    from bs4.dammit import EntitySubstitution as ES
+    out.append(comment("C09 / C04 / C19: HTML entity tables as bs4 derives them"))
+    items = ["(%s, %s)" % (coqstr(k), coqstr(v)) for k, v in sorted(ES.HTML_ENTITY_TO_CHARACTER.items())]
+    out.append("Definition html_entity_to_character : list (list N * list N) := " + chunked_list(items, 3) + ".")
+    out.append("")
+
+
+GENERATORS = [gen_registry, gen_dammit]
+ENTITY_GENERATORS = [gen_entities]
+
+
+def gen_stdlib(out):
+    """Oracle data about the interpreter's standard library (not about /repo)."""
+    out.append(comment("single-byte decoders of the smart-quote carrier encodings: byte -> Some code point | None"))
+    for name, codec in (("cp1252", "windows-1252"), ("latin1", "iso-8859-1"), ("latin2", "iso-8859-2")):
+        items = []
+        for b in range(256):
+            try:
+                c = bytes([b]).decode(codec)
+                assert len(c) == 1
+                items.append("Some %d" % ord(c))
+            except UnicodeDecodeError:
+                items.append("None")
+        out.append("Definition %s_table : list (option N) := " % name + chunked_list(items, 16) + ".")
+    out.append("")
 
 
 def main():
     out = ["(* GENERATED by translator/gen_tables.py from %s — do not edit *)" % REPO,
-           "From Coq Require Import List NArith ZArith String.",
+           "From Coq Require Import List NArith ZArith.",
+           "From BS Require Import Base.Sexp Base.Types.",
            "Import ListNotations.",
            "Open Scope N_scope.",
            ""]
+    header = list(out)
     for g in GENERATORS:
         g(out)
-    text = "\n".join(out) + "\n"
     os.makedirs(OUT, exist_ok=True)
-    changed = write_if_changed(os.path.join(OUT, "Tables.v"), text)
-    print("Tables.v", "changed" if changed else "unchanged", hashlib.sha256(text.encode()).hexdigest()[:16])
+    for fname, gens, o in (("Tables.v", None, out), ("Entities.v", ENTITY_GENERATORS, list(header)),
+                           ("Stdlib.v", [gen_stdlib], list(header))):
+        if gens:
+            for g in gens:
+                g(o)
+        text = "\n".join(o) + "\n"
+        changed = write_if_changed(os.path.join(OUT, fname), text)
+        print(fname, "changed" if changed else "unchanged", hashlib.sha256(text.encode()).hexdigest()[:16])
 
 
 if __name__ == "__main__":
